@@ -6,7 +6,7 @@
    "Reaches the repository / tx manager / address book" are the guarded effects; "selected to
    serve requests" is the ready flag (NodeManager.nextNode skips nodes that are not ready). *)
 From Coq Require Import String.
-From BR Require Import Base.Prelude Gen.Consts Gen.Handlers Net.NodeFSM Net.NodeProofs.
+From BR Require Import Base.Prelude Gen.Consts Gen.Handlers Net.NodeFSM Net.NodeProofs Net.Select Net.SelectProofs.
 Open Scope N_scope.
 
 (* for every interleaving from a fresh connection, a step taken while the peer is not verified
@@ -56,6 +56,20 @@ Theorem C13_wrong_chain_disconnects : forall s count first all_ok, n_stopped s =
   n_verified s1 = n_verified s /\ n_ready s1 = false /\ n_stopped s1 = true /\ In EStop es.
 Proof. exact foreign_reply_disconnects. Qed.
 Print Assumptions C13_wrong_chain_disconnects.
+
+(* never selected to serve header, transaction or block requests: the manager's choice
+   (NodeManager.nextNode, Net/Select.v) falls only on a node of its list that is ready, not
+   stopped, not busy and - for blocks - has the block; with C13_ready_implies_verified a peer that
+   is not verified is never chosen *)
+Theorem C13_selected_is_ready : forall use_has nodes off n nodes' off',
+  next_node use_has nodes off = (Some n, nodes', off') -> nd_ready n = true /\ nd_stopped n = false.
+Proof. exact not_ready_never_chosen. Qed.
+Print Assumptions C13_selected_is_ready.
+
+Theorem C13_selected_is_eligible : forall use_has nodes off n nodes' off',
+  next_node use_has nodes off = (Some n, nodes', off') -> In n nodes /\ eligible use_has n = true.
+Proof. exact next_node_sound. Qed.
+Print Assumptions C13_selected_is_eligible.
 
 (* the tie between the model's "only when ready" and the source: Gen/Handlers.v is regenerated on
    every run from every assignment to a node's handler table in /repo.  The handlers through
